@@ -17,7 +17,7 @@ RULE = (
     "reversed view, and restoration by the second reverse. Non-trivial = at least one drawn segment."
 )
 BUDGET = {"quick": 14000, "thorough": 600000}
-TIME_CAP = {"quick": 70, "thorough": 1500}
+TIME_CAP = {"quick": 240, "thorough": 1500}
 ANCHORS = ["Path.reverse", "Path.as_subpaths", "Subpath.reverse", "Subpath._reverse_segments", "Subpath.index_to_path_index", "PathSegment.reverse",
            "CubicBezier.reverse", "Arc.reverse", "Path.__iadd__", "Path.extend", "Path._validate_connection", "Path._validate_subpath"]
 REQUIRED_MONITORS = ["whole-reverse", "subpath-correspondence", "segment-reversal", "connectivity", "involution", "view-reverse", "outside-window", "reverse-transform-reverse"]
